@@ -13,8 +13,11 @@ Theorems about one iteration of `forward_message`'s recipient loop (`deliverOne`
 `forward_message`, `send_to_loggers` and `send_ack` (`trySend`) and about `send_failed_message` (`failedMsg`), for every
 state, frame, writable set, set of failing sockets and every nested forward `fwd`.
 
-Refinement link, partial (the counted lower bound of `checkDepartures` — an undeliverable CLIENT_CLOSED is owed a notice —
-is proved at model level only: `departure_notices_counted_partial`, `nested_departure_notices_counted_partial`):
+Refinement link, partial — what is missing is the C14 clause of `checkDepartures` on the stretch before the first read
+of a round (the accept branch) and the assembly over a whole run (`Spec.NoErr "C14" (runSpec …)`):
+`spec_segment_adds_no_c14_on_model` (`Spec.segment` adds no C14 entry on the events of any frame the model reads in a
+simulated state: the counted lower bounds of `checkData` and of `checkDepartures`, every branch; model-level cores
+`undeliverable_reported_counted`, `departure_notices_counted`, `nested_departure_notices_counted`),
 `spec_guard_clause_passes_on_model` (no notice about a notice, every history),
 `spec_data_clauses_pass_on_model` (`Spec.checkData`, its counted C14 clause included, returns its argument on the events
 of every data frame read in a simulated state; model-level core: `undeliverable_reported_counted`),
@@ -255,17 +258,15 @@ example : (Spec.checkData {} exA exH []).errs.map (·.1) = ["C14"] ∧
 
 /-! ### An undeliverable CLIENT_CLOSED is owed a notice too (model level) -/
 
-/-- **PARTIAL (model level; the C14 clause of `Spec.checkDepartures` is not linked through the simulation).**  One
+/-- **One departure, counted** (model level; linked to the Spec clause by `spec_segment_adds_no_c14_on_model`).  One
 departure handled at top level — `remove_module` with everything nested in it: the CLIENT_CLOSED forward, the notices
 about it, the departures of the connections that fail meanwhile and their own CLIENT_CLOSED forwards, for every nesting
 depth.  `ext` are its events; `o` can take a FAILED_MESSAGE at the end (`StableF`); `U` is a duplicate-free list of
 subscribers of CLIENT_CLOSED with module id `d` that are not writable, are no loggers and are still in the table at the
 end (`Owed`).  Then `o` has been written at least (number of connections closed in `ext`) · `|U|` notices
 `failed d CLIENT_CLOSED 0 0`: one per departure and subscriber — the count `Spec.checkDepartures` demands.
-Missing for the link: the same bound for the other top-level operations of a segment (they are compositions of the
-nested operations covered by `Proofs/ManagerSimOwedDep.lean`) and the passage from the Spec's observer / owed lists to
-`StableF` / `Owed` in each branch of `Spec.segment`. -/
-theorem departure_notices_counted_partial (cfg : Cfg) (ok : CfgOK cfg) (hfuel : cfg.fuel = 0) (hperm : OrdPerm cfg)
+The same bound for the other top-level operations of a segment: `Proofs/ManagerSimOwedTop.lean`. -/
+theorem departure_notices_counted (cfg : Cfg) (ok : CfgOK cfg) (hfuel : cfg.fuel = 0) (hperm : OrdPerm cfg)
     (s : State) (h : Top cfg s) (u : Nat) (m : Module) (hm : s.find u = some m)
     (ext : List Ev) (he : (removeModule cfg (fwdTop cfg) s u).out = s.out ++ ext) (o : Nat) (d : Int) (U : List Nat)
     (hU : U.Nodup) (ho : StableF cfg (removeModule cfg (fwdTop cfg) s u) o)
@@ -276,11 +277,11 @@ theorem departure_notices_counted_partial (cfg : Cfg) (ok : CfgOK cfg) (hfuel : 
   subst this
   simpa using x ho hOw
 
-/-- **PARTIAL (model level), the same for any top-level forward**: whatever frame is forwarded from a crash-free state
+/-- **The same for any top-level forward** (model level): whatever frame is forwarded from a crash-free state
 (a data frame, a log line, a periodic message, …), the departures nested in it are reported to the subscribers of
 CLIENT_CLOSED that cannot take the frame, counted as above; if the frame itself has the header of a CLIENT_CLOSED frame,
 `|U|` more. -/
-theorem nested_departure_notices_counted_partial (cfg : Cfg) (ok : CfgOK cfg) (hfuel : cfg.fuel = 0) (hperm : OrdPerm cfg)
+theorem nested_departure_notices_counted (cfg : Cfg) (ok : CfgOK cfg) (hfuel : cfg.fuel = 0) (hperm : OrdPerm cfg)
     (s : State) (h : Top cfg s) (g : Frame)
     (ext : List Ev) (he : (fwdTop cfg s g).out = s.out ++ ext) (o : Nat) (d : Int) (U : List Nat)
     (hU : U.Nodup) (ho : StableF cfg (fwdTop cfg s g) o) (hOw : ∀ w ∈ U, Owed cfg cfg.mtClosed d (fwdTop cfg s g) w) :
@@ -304,8 +305,8 @@ example : (removeModule {} (fwdTop {}) exDep 1).out =
     closeN (removeModule {} (fwdTop {}) exDep 1).out = 1 ∧
     fcnt 3 (Bc {} 11) (removeModule {} (fwdTop {}) exDep 1).out = 1 := by decide
 
-/-- **PARTIAL (the C14 clause of `Spec.checkDepartures` on the events of one frame; the call sites of `Spec.segment` are
-not instantiated).**  The model reads a frame from `rd.uid` in a crash-free state `s` and handles it, possibly followed by
+/-- **The C14 clause of `Spec.checkDepartures` on the events of one frame**, for any abstract state in the right relation
+to the end of the stretch.  The model reads a frame from `rd.uid` in a crash-free state `s` and handles it, possibly followed by
 the periodic section (`q = true`); `evs` are the events after the `rd` marker.  `A2` is an abstract state that simulates
 the model's state at the end, `X` an abstract state from which `A2` arises by applying the departures of `evs` (same
 writable set and failure environment).  Then `Spec.checkDepartures cfg X md evs` adds no C14 entry (`ErrExt ["C07"]`: the
@@ -314,9 +315,9 @@ FAILED_MESSAGE that stays and can take it got one notice `failed d CLIENT_CLOSED
 CLIENT_CLOSED with id `d` that stays, is not ready to accept data and is no logger.
 In the Spec's own run `A2 = Spec.segment cfg a rd evs` simulates the end state (`segment_ok`, C07 link) and in every branch
 of `Spec.segment` the state `X` that `checkDepartures` is evaluated on stands in this relation to it
-(`segment … = applyDepartures (… X …) evs` up to error entries); this instantiation, branch by branch, is what is
-missing, and so is the stretch before the first read of a round. -/
-theorem spec_departure_count_clause_passes_partial (cfg : Cfg) (ok : CfgOK cfg) (hfuel : cfg.fuel = 0) (hperm : OrdPerm cfg)
+(`segment … = applyDepartures (… X …) evs` up to error entries); this instantiation, branch by branch, is
+`spec_segment_adds_no_c14_on_model` below; what is missing is the stretch before the first read of a round. -/
+theorem spec_departure_count_clause_passes_on_frame (cfg : Cfg) (ok : CfgOK cfg) (hfuel : cfg.fuel = 0) (hperm : OrdPerm cfg)
     {s : State} (h : Top cfg s) (rd : Read) (q : Bool) (evs : List Ev)
     (he : (if q then ticks cfg (readOne cfg s rd) else readOne cfg s rd).out = s.out ++ Ev.rd rd.uid :: evs)
     {A2 X : Spec.A} (hs : Sim cfg A2 (if q then ticks cfg (readOne cfg s rd) else readOne cfg s rd))
@@ -326,5 +327,30 @@ theorem spec_departure_count_clause_passes_partial (cfg : Cfg) (ok : CfgOK cfg) 
   cases q
   · exact Or.inl rfl
   · exact Or.inr rfl
+
+/-- **`Spec.segment` adds no C14 entry on the model's own run**: the model reads a frame from connection `rd.uid` in a
+state `s` that the abstract state `a` simulates (`Inv`: after every history and at every frame inside a round) and handles
+it, possibly followed by the periodic section (`hq`; `q` packages what the C07 link needs of that continuation);
+`evs` are the events after the `rd` marker.  Then whatever branch `Spec.segment` takes, its C14 clauses pass: the
+counted lower bound of `checkData` (data frames) and the counted lower bound of `checkDepartures` (every branch: an
+undeliverable CLIENT_CLOSED is owed a notice, once per departure and subscriber, at every FAILED_MESSAGE observer that
+stays and can take it). -/
+theorem spec_segment_adds_no_c14_on_model (cfg : Cfg) (ok : CfgOK cfg) (hfuel : cfg.fuel = 0) (hperm : OrdPerm cfg)
+    {a : Spec.A} {s : State} (inv : Inv cfg a s) (rd : Read) (hu0 : rd.uid ≠ 0) (m : Module) (hm : s.find rd.uid = some m)
+    (s2 : State) (q : QuietTo cfg (readOne cfg s rd) s2)
+    (hq : s2 = readOne cfg s rd ∨ s2 = ticks cfg (readOne cfg s rd))
+    (evs : List Ev) (he : s2.out = s.out ++ Ev.rd rd.uid :: evs) (hn : Spec.NoErr "C14" a) :
+    Spec.NoErr "C14" (Spec.segment cfg a rd evs) :=
+  segment_c14 ok hfuel hperm inv rd hu0 m hm s2 q hq evs he hn
+
+/-- non-vacuity of the hypotheses: the relation holds at the start of every history (`spec_invariant_after_any_history`),
+    and the counted clause of `checkDepartures` is not trivially silent — one departure, one owed subscriber, one
+    observer and no notice: it fires; with the notice it does not -/
+example : (Spec.checkDepartures {} { exA with mods := [{ uid := 1, modId := 11, connected := true, types := [33] },
+        { uid := 2, modId := 12, connected := true, types := [8] }, { uid := 3, modId := 13, connected := true }] }
+      (some 3) [.close 3]).errs.map (·.1) = ["C14"] ∧
+    (Spec.checkDepartures {} { exA with mods := [{ uid := 1, modId := 11, connected := true, types := [33] },
+        { uid := 2, modId := 12, connected := true, types := [8] }, { uid := 3, modId := 13, connected := true }] }
+      (some 3) [.close 3, .send 2 1 (failedFrame {} 11 (closedFrame {} { uid := 3, modId := 13 }))]).errs = [] := by decide
 
 end Pyrtma.C14
